@@ -4,9 +4,10 @@
    other shared mutable state (syntactic scan, also regenerated).  Partial: std::sync::LazyLock,
    the Rust memory model and the hardware are trusted to implement the once-cell semantics;
    thread interleavings of the real code are explored by the stress runs of the check. *)
-From Coq Require Import NArith Bool List String.
+From Coq Require Import NArith Arith Bool List String.
 From RS.Gen Require Import Prelude GenStatics.
 From RS.Model Require Import Lazy.
+From RS.Proofs Require Import LazyFacts.
 Import ListNotations.
 Local Open Scope string_scope.
 
@@ -29,6 +30,37 @@ Theorem C16_users : forallb (fun u => forallb (fun x => existsb (String.eqb x) (
 Proof. vm_compute. reflexivity. Qed.
 Print Assumptions C16_users.
 
+(* ---- the unbounded theorems: any number of threads, any wants, any schedule ---- *)
+Lemma deps_ranked : forall c x, In x (deps_of deps c) -> (rank deps x < rank deps c)%nat.
+Proof.
+  intros c x Hx. unfold deps_of in Hx. destruct (find (fun p => String.eqb (fst p) c) deps) as [p|] eqn:Ef; [|destruct Hx].
+  apply find_some in Ef. destruct Ef as [Hp Hc]. apply String.eqb_eq in Hc. subst c.
+  assert (H : ranked deps = true) by (vm_compute; reflexivity).
+  unfold ranked in H. rewrite forallb_forall in H. specialize (H p Hp). rewrite forallb_forall in H.
+  specialize (H x Hx). apply Nat.ltb_lt in H. exact H.
+Qed.
+
+(* every state reachable under any schedule satisfies the machine invariant (a cell is Running t
+   exactly when it is on thread t's initialiser stack; stacks are dependency chains), every
+   initialiser has completed at most once, and completed cells stay initialised *)
+Theorem C16_once : forall wants sched,
+  let m := mrun deps (minit wants) sched in
+  Inv deps m /\ (forall c, In c (inits m) -> tbl m c = Done) /\ NoDup (inits m).
+Proof. exact (run_invariants deps). Qed.
+Print Assumptions C16_once.
+
+(* no schedule deadlocks: in every reachable state in which some thread has not finished,
+   some thread can take a step (a thread never waits for itself, and the waits-for relation
+   follows the strict dependency order) *)
+Theorem C16_progress : forall wants sched,
+  let m := mrun deps (minit wants) sched in
+  finished m = false -> exists t m', mstep deps m t = Some m'.
+Proof.
+  intros wants sched m Hf. apply (progress deps (rank deps) deps_ranked); [|exact Hf].
+  apply (run_invariants deps).
+Qed.
+Print Assumptions C16_progress.
+
 (* bounded exploration inside Coq (not the unbounded claim): for three threads that force
    the tables in the orders of Naive::new, NoSimd::new+decode and Avx2::new, every schedule
    given by a rotation/interleaving pattern below terminates with every initialiser run
@@ -41,6 +73,6 @@ Definition good_final (m : mstate) : bool :=
   finished m && forallb (fun c => is_done (tbl m) c) (names deps) &&
   Nat.eqb (List.length (inits m)) (List.length deps) &&
   forallb (fun c => Nat.eqb (count_occ string_dec (inits m) c) 1) (names deps).
-Theorem C16_bounded_schedules : forallb (fun s => good_final (mrun deps (minit deps wants3) s)) scheds = true.
+Theorem C16_bounded_schedules : forallb (fun s => good_final (mrun deps (minit wants3) s)) scheds = true.
 Proof. vm_compute. reflexivity. Qed.
 Print Assumptions C16_bounded_schedules.
